@@ -1,4 +1,5 @@
 import Proofs.C03Thm
+import Proofs.C03P
 /-!
 # C03 — ring state merge is a CRDT (property theorems)
 
@@ -91,10 +92,41 @@ theorem merge_comm_fails_at_zero :
     get? (mergeState [{ id := "a", ts := 0 }] []) "a" ≠ get? (mergeState [] [{ id := "a", ts := 0 }]) "a" := by
   decide
 
-/-! ### Partition ring
-`PartitionRingDesc.mergeWithTime` is modelled in `Model/C03P.lean` and tied to the code by the same
-correspondence + law judge (`C03.pmerge`, `C03.plaws`); its laws (`pmerge_idem/comm/assoc`,
-registers componentwise) are proved in `Props/C03P` when present — see MANIFEST level_note. -/
+/-! ### Partition ring (`PartitionRingDesc.mergeWithTime`, model `Model/C03P.lean`)
+
+Partition id and tokens are immutable; the state and the state-change lock are two
+last-writer-wins registers per partition (a deletion wins at equal timestamps); owners are
+last-writer-wins entries with tombstones. `WF`: unique ids, owner timestamps ≥ 1. `Coherent a b`: one
+content per (entry, timestamp). "Same content" is equality of both `get` views (`Equiv`). -/
+
+open C03P in
+theorem pmerge_closed (a b : PDesc) (ha : PfC03P.WF a) (hb : PfC03P.WF b) : PfC03P.WF (C03P.mergeState a b) :=
+  PfC03P.mergeState_wf a b ha hb
+
+/-- per partition: registers are combined componentwise (newer timestamp wins, deletion wins ties),
+a partition unknown to the receiver is taken as a whole; per owner: the newer entry, removal at ties -/
+theorem pmerge_lww (a b : C03P.PDesc) (ha : PfC03P.WF a) (hb : PfC03P.WF b) :
+    (∀ k, C03P.getP (C03P.mergeState a b).parts k = PfC03P.joinP (C03P.getP a.parts k) (C03P.getP b.parts k)) ∧
+    (∀ k, C03P.getO (C03P.mergeState a b).owners k = PfC03P.joinO (C03P.getO a.owners k) (C03P.getO b.owners k)) :=
+  ⟨fun k => PfC03P.view_parts a b hb k, fun k => PfC03P.view_owners a b ha hb k⟩
+
+theorem pmerge_idem (a : C03P.PDesc) (ha : PfC03P.WF a) : PfC03P.Equiv (C03P.mergeState a a) a :=
+  PfC03P.merge_idem a ha
+
+theorem pmerge_comm (a b : C03P.PDesc) (ha : PfC03P.WF a) (hb : PfC03P.WF b) (hc : PfC03P.Coherent a b) :
+    PfC03P.Equiv (C03P.mergeState a b) (C03P.mergeState b a) :=
+  PfC03P.merge_comm a b ha hb hc
+
+theorem pmerge_assoc (a b c : C03P.PDesc) (ha : PfC03P.WF a) (hb : PfC03P.WF b) (hc : PfC03P.WF c) :
+    PfC03P.Equiv (C03P.mergeState (C03P.mergeState a b) c) (C03P.mergeState a (C03P.mergeState b c)) :=
+  PfC03P.merge_assoc a b c ha hb hc
+
+-- non-vacuity: a pending→active state change and a same-second owner deletion are both accepted
+example : C03P.mergeState
+    { parts := [{ id := 1, tokens := [5], state := 1, stateTs := 3 }], owners := [{ id := "o", part := 1, state := 1, ts := 4 }] }
+    { parts := [{ id := 1, tokens := [5], state := 2, stateTs := 4 }], owners := [{ id := "o", part := 1, state := 2, ts := 4 }] } =
+    { parts := [{ id := 1, tokens := [5], state := 2, stateTs := 4 }], owners := [{ id := "o", part := 1, state := 2, ts := 4 }] } := by
+  decide
 
 /-! ### Non-vacuity: a concrete universe with tokens, two instances, three timestamps -/
 
